@@ -193,85 +193,174 @@ def offset_sign_rules(db, chk, cfg, rule="OFFSET.sign"):
 # C19
 # ---------------------------------------------------------------------------
 
+def _mink_hook(db, sizes):
+    """call hook answering size()/empty() of the two operands (sizes: {'pattern': n, 'path': m})."""
+    def hook(name, argv, nd):
+        if name in ("size", "empty") and nd.get("kind") == "CXXMemberCallExpr":
+            base = canon(db.member_base(nd))
+            if base in sizes:
+                return sizes[base] if name == "size" else (sizes[base] == 0)
+        if name in ("reserve", "resize", "emplace_back", "push_back"):
+            return None
+        return NotImplemented
+    return hook
+
+
+def _mink_prefix_env(db, f, stmts, sizes, extra):
+    """Interpret the declarations of the straight-line part of detail::Minkowski (everything outside its loops) for given operand
+    sizes / flags.  Returns (env, returned_early, indexed_before_return)."""
+    it = Interp(db, dict(extra), [], call_hook=_mink_hook(db, sizes))
+    returned = False
+    indexed = False
+    for s in stmts:
+        k = s.get("kind")
+        if k in ("ForStmt", "CXXForRangeStmt", "WhileStmt", "DoStmt"):
+            # for-init declarations of the sweep loop belong to the prefix
+            if k == "ForStmt" and kids(s) and isinstance(kids(s)[0], dict) and kids(s)[0].get("kind") == "DeclStmt":
+                for d in kids(kids(s)[0]):
+                    init = [c for c in kids(d) if isinstance(c, dict) and c.get("kind")]
+                    if d.get("kind") == "VarDecl" and init:
+                        try:
+                            it.env[d["name"]] = it.ev(init[-1])
+                        except Unsupported:
+                            pass
+            continue
+        if k == "IfStmt":
+            cond, then, els = if_parts(s)
+            if any(y.get("kind") == "ReturnStmt" for y in walk(then)) and els is None:
+                try:
+                    if it._truth(it.ev(cond), s):
+                        returned = True
+                        break
+                except Unsupported:
+                    pass
+            continue
+        if k == "DeclStmt":
+            for d in kids(s):
+                if d.get("kind") != "VarDecl":
+                    continue
+                init = [c for c in kids(d) if isinstance(c, dict) and c.get("kind")]
+                if init:
+                    if any(y.get("kind") in ("ArraySubscriptExpr",) or (y.get("kind") == "CXXOperatorCallExpr" and db.callee(y)[0] == "operator[]") for y in walk(init[-1])):
+                        indexed = True
+                    try:
+                        it.env[d["name"]] = it.ev(init[-1])
+                    except Unsupported:
+                        pass
+            continue
+        if k == "ReturnStmt":
+            break
+    return it.env, returned, indexed
+
+
 def minkowski_rules(db, chk, cfg, rule="MINK"):
     f = db.one("detail::Minkowski")
     pat, path, isSum, isClosed = [p["name"] for p in f.params]
     n = 0
     stmts = kids(f.body)
     txt = canon(f.body)
-    # (a) empty input -> empty result, before any indexing
-    guard = None
-    for i, s in enumerate(stmts):
-        if s.get("kind") == "IfStmt":
-            cond, then, els = if_parts(s)
-            if "return" in canon(then) and ("patLen" in canon(cond) or "size()" in canon(cond) or "empty()" in canon(cond)):
-                guard = (i, cond, then)
-                break
-    ok = False
-    if guard:
-        i, cond, then = guard
-        try:
-            tbl = {(a, b): bool(Interp(db, {"patLen": a, "pathLen": b}).ev(cond)) for a in (0, 1, 5) for b in (0, 1, 5)}
-            ok = all(v == (a == 0 or b == 0) for (a, b), v in tbl.items()) and canon(then).startswith("return vector<vector<Point<long>>>{}")
-        except Unsupported:
-            ok = False
-        pre = " ".join(canon(s) for s in stmts[:i])
-        if "[" in pre:
-            ok = False
+    # (a) empty input -> empty result, before anything is indexed (the straight-line part is interpreted for all emptiness combinations)
+    ok = True
+    for a_ in (0, 1, 5):
+        for b_ in (0, 1, 5):
+            env, returned, indexed = _mink_prefix_env(db, f, stmts, {pat: a_, path: b_}, {isClosed: True, isSum: True})
+            if returned != (a_ == 0 or b_ == 0) or (returned and indexed):
+                ok = False
     n += 1
     chk.instance(rule + ".empty", {"obligation": "empty pattern or path returns an empty result before anything is indexed", "cfg": cfg}, ok=ok)
     if not ok:
-        chk.violation(rule + ".empty", f.qual, "guard", "the empty-input guard of Minkowski (patLen == 0 || pathLen == 0 -> empty result) is missing or wrong",
+        chk.violation(rule + ".empty", f.qual, "guard", "the empty-input guard of Minkowski (pattern or path empty -> empty result, before indexing) is missing or wrong",
                       f.where, cfg=cfg)
-    # (b) sum adds, difference subtracts
-    lambdas = [x for x in walk(f.body) if x.get("kind") == "LambdaExpr"]
-    ifs = [s for s in stmts if s.get("kind") == "IfStmt" and canon(if_parts(s)[0]) == isSum]
-    ok = False
-    if len(ifs) == 1:
-        cond, then, els = if_parts(ifs[0])
-
-        def lam_ret(b):
-            for x in walk(b):
-                if x.get("kind") == "LambdaExpr":
-                    for y in walk(x):
-                        if y.get("kind") == "ReturnStmt":
-                            return canon(kids(y)[0])
-            return ""
-        ok = "(p + pt2)" in lam_ret(then) and els is not None and "(p - pt2)" in lam_ret(els)
-    n += 1
-    chk.instance(rule + ".sign", {"obligation": "isSum: path point + pattern point; otherwise path point - pattern point", "cfg": cfg}, ok=ok)
-    if not ok:
-        chk.violation(rule + ".sign", f.qual, "isSum", "MinkowskiSum must add and MinkowskiDiff subtract the pattern point (p + pt2 / p - pt2)", f.where, cfg=cfg)
-    # (c) closing edge of the path only when closed:  delta = isClosed ? 0 : 1 ; g = isClosed ? pathLen-1 : 0 ; loop i from delta
+    # (b) sum adds, difference subtracts: in the branch taken for isSum (both values) the path point and the pattern point are combined by + / -
     ok = True
-    allowed = {"delta", "g", isClosed, "pathLen"}
-    for closed in (False, True):
-        try:
-            it = Interp(db, {isClosed: closed, "pathLen": 7})
-            for s in stmts:
-                if s.get("kind") in ("ForStmt", "WhileStmt", "ReturnStmt"):
+    sign_seen = {}
+    for val in (True, False):
+        ops = []
+
+        def collect(node):
+            for c in kids(node):
+                if not isinstance(c, dict):
                     continue
-                names = {x.get("referencedDecl", {}).get("name") for x in walk(s) if x.get("kind") == "DeclRefExpr"}
-                decls = {d.get("name") for d in kids(s) if d.get("kind") == "VarDecl"} if s.get("kind") == "DeclStmt" else set()
-                if not ((names | decls) & {"delta", "g"}) or not (names <= allowed):
+                if c.get("kind") == "IfStmt" and any(y.get("kind") == "DeclRefExpr" and y.get("referencedDecl", {}).get("name") == isSum for y in walk(if_parts(c)[0])):
+                    cond, then, els = if_parts(c)
+                    try:
+                        t = Interp(db, {isSum: val}).ev(cond)
+                    except Unsupported:
+                        ops.append("?")
+                        continue
+                    br = then if t else els
+                    if br is not None:
+                        collect({"inner": [br]})
                     continue
-                if s.get("kind") == "DeclStmt":
-                    for d in kids(s):
-                        if d.get("name") in ("delta", "g"):
-                            init = [c for c in kids(d) if c.get("kind")]
-                            it.env[d["name"]] = it.ev(init[-1]) if init else None
-                else:
-                    it.exec(s)
-            if it.env.get("delta") != (0 if closed else 1) or it.env.get("g") != (6 if closed else 0):
-                ok = False
-        except Unsupported:
+                if c.get("kind") == "CXXOperatorCallExpr" and db.callee(c)[0] in ("operator+", "operator-") and "Point<" in dqt(c):
+                    a0, a1 = db.call_args(c)[:2]
+                    patterny = lambda e: pat in canon(e) or any(y.get("kind") == "DeclRefExpr" and y.get("referencedDecl", {}).get("kind") == "ParmVarDecl"
+                                                               and y.get("referencedDecl", {}).get("name") not in (pat, path) for y in walk(e))
+                    ops.append((db.callee(c)[0][-1], patterny(a0), patterny(a1)))
+                collect(c)
+        collect(f.body)
+        ops = sorted(set(ops), key=repr)         # a lambda's body occurs twice in clang's dump (closure type and expression)
+        sign_seen[val] = ops
+        want = "+" if val else "-"
+        if len(ops) != 1 or ops[0] == "?" or ops[0][0] != want:
             ok = False
-    loops = [s for s in stmts if s.get("kind") == "ForStmt"]
-    if not loops or "size_t i = delta" not in canon(loops[-1]) or "(i < pathLen)" not in canon(loops[-1]) or "(g = i)" not in canon(loops[-1]):
-        ok = False
+        elif want == "-" and not (ops[0][1] is False and ops[0][2] is True):
+            ok = False          # difference: path point minus pattern point
+        elif want == "+" and ops[0][1] == ops[0][2]:
+            ok = False
     n += 1
-    chk.instance(rule + ".closing-edge", {"obligation": "edges (g,i) run over i = delta..pathLen-1 with g the previous point; the closing edge "
-                                                        "(last,first) is included iff isClosed", "cfg": cfg}, ok=ok)
+    chk.instance(rule + ".sign", {"obligation": "isSum: path point + pattern point; otherwise path point - pattern point", "seen": {str(k): str(v) for k, v in sign_seen.items()}, "cfg": cfg}, ok=ok)
+    if not ok:
+        chk.violation(rule + ".sign", f.qual, "isSum", "MinkowskiSum must add and MinkowskiDiff subtract the pattern point from the path point; found %s" % sign_seen, f.where, cfg=cfg)
+    # roles of the sweep loops: outer cursor I over the path, inner cursor J over the pattern, G = previous I, H = previous J
+    outer = None
+    for s0 in stmts:
+        if s0.get("kind") == "ForStmt" and any(y.get("kind") == "ForStmt" for y in walk(kids(s0)[-1])):
+            outer = s0
+    roles = None
+    if outer is not None:
+        inner = [y for y in walk(kids(outer)[-1]) if y.get("kind") == "ForStmt"][0]
+
+        def cursor(loop):
+            c = kids(loop)[2]
+            for y in walk(c):
+                if y.get("kind") == "DeclRefExpr" and y.get("referencedDecl", {}).get("kind") == "VarDecl":
+                    return y["referencedDecl"]["name"]
+            return None
+
+        def prev_of(body, cur):
+            for y in kids(body) if body.get("kind") == "CompoundStmt" else [body]:
+                if y.get("kind") == "BinaryOperator" and y.get("opcode") == "=" and canon(kids(y)[1]) == cur and strip(kids(y)[0]).get("kind") == "DeclRefExpr":
+                    return canon(kids(y)[0])
+            return None
+        I, J = cursor(outer), cursor(inner)
+        G, H = prev_of(kids(outer)[-1], I), prev_of(kids(inner)[-1], J)
+        if I and J and G and H:
+            roles = (I, J, G, H, outer, inner)
+    # (c) closing edge of the path only when closed: I starts at 0 (closed) / 1 (open), G at last / first, the loop runs while I < pathLen
+    ok = roles is not None
+    if ok:
+        I, J, G, H, outer, inner = roles
+        for closed in (False, True):
+            env, returned, _ = _mink_prefix_env(db, f, stmts, {pat: 5, path: 7}, {isClosed: closed, isSum: True})
+            if returned or env.get(I) != (0 if closed else 1) or env.get(G) != (6 if closed else 0) or env.get(H) != 4:
+                ok = False
+            try:
+                for iv, want in ((6, True), (7, False)):
+                    e2 = dict(env)
+                    e2[I] = iv
+                    if bool(Interp(db, e2, [], call_hook=_mink_hook(db, {pat: 5, path: 7})).ev(kids(outer)[2])) != want:
+                        ok = False
+                for jv, want in ((4, True), (5, False)):
+                    e2 = dict(env)
+                    e2[J] = jv
+                    if bool(Interp(db, e2, [], call_hook=_mink_hook(db, {pat: 5, path: 7})).ev(kids(inner)[2])) != want:
+                        ok = False
+            except Unsupported:
+                ok = False
+    n += 1
+    chk.instance(rule + ".closing-edge", {"obligation": "edges (previous, current) run over current = (closed ? 0 : 1)..pathLen-1 with previous starting at the last (closed) / "
+                                                        "first (open) point; the pattern index runs over 0..patLen-1 with previous = patLen-1", "cfg": cfg}, ok=ok)
     if not ok:
         chk.violation(rule + ".closing-edge", f.qual, "isClosed", "the range of path edges swept (closing edge only when isClosed) changed", f.where, cfg=cfg)
     # (d) every quad is made positively oriented before it is stored: the statement that reverses the quad runs exactly when the quad is
@@ -308,19 +397,23 @@ def minkowski_rules(db, chk, cfg, rule="MINK"):
     if not ok:
         chk.violation(rule + ".orientation", f.qual, "quad", "quads are no longer normalised to positive orientation before the union: quads of opposite "
                       "orientation cancel under NonZero filling", f.where, cfg=cfg)
-    # (e) quad corners: (g,h) (i,h) (i,j) (g,j) in cyclic order (any rotation, either direction: orientation is normalised afterwards)
+    # (e) quad corners: (G,H) (I,H) (I,J) (G,J) in cyclic order (any rotation, either direction: orientation is normalised afterwards)
     corners = []
     for y in walk(f.body):
-        if y.get("kind") == "CXXMemberCallExpr" and db.callee(y)[0] in ("emplace_back", "push_back") and canon(db.member_base(y)) == "quad":
-            m = re.match(r"^tmp\[(\w+)\]\[(\w+)\]$", canon(db.call_args(y)[0]).strip("()"))
-            corners.append((m.group(1), m.group(2)) if m else None)
-    base = [("g", "h"), ("i", "h"), ("i", "j"), ("g", "j")]
-    rots = [base[k:] + base[:k] for k in range(4)]
-    rots += [list(reversed(r)) for r in rots]
-    txt = canon(f.body)
-    ok = corners in rots and "(h = j)" in txt.replace("h = j", "(h = j)").replace("((h = j))", "(h = j)")
+        if y.get("kind") == "CXXMemberCallExpr" and db.callee(y)[0] in ("emplace_back", "push_back") and canon(db.member_base(y)) != "result" \
+                and canon(db.member_base(y)) != "tmp":
+            m = re.match(r"^tmp\[\(?(\w+)\)?\]\[\(?(\w+)\)?\]$", canon(db.call_args(y)[0]).strip("()").replace("(", "").replace(")", ""))
+            if m:
+                corners.append((m.group(1), m.group(2)))
+    ok = False
+    if roles is not None:
+        I, J, G, H = roles[:4]
+        base = [(G, H), (I, H), (I, J), (G, J)]
+        rots = [base[k:] + base[:k] for k in range(4)]
+        rots += [list(reversed(r)) for r in rots]
+        ok = corners in rots
     n += 1
-    chk.instance(rule + ".quad", {"obligation": "quad = (g,h) (i,h) (i,j) (g,j) up to rotation/reversal, then h = j", "corners": corners, "cfg": cfg}, ok=ok)
+    chk.instance(rule + ".quad", {"obligation": "quad = (prev i, prev j) (i, prev j) (i, j) (prev i, j) up to rotation/reversal", "corners": corners, "cfg": cfg}, ok=ok)
     if not ok:
         chk.violation(rule + ".quad", f.qual, "corners", "the four corners of the swept parallelogram changed: %s" % (corners,), f.where, cfg=cfg)
     # (f) all four public functions union with NonZero and pass the right isSum flag
